@@ -29,7 +29,8 @@ type Exec struct {
 	nframes int
 	Notes  []string
 	lemmaAxioms []*Term
-	measure0 *Term
+	measure0 []measureComp
+	NoTermination bool
 }
 
 func (x *Exec) nextID() int { x.ids++; return x.ids }
@@ -437,6 +438,10 @@ func (x *Exec) coerce(st *St, v *Val, to types.Type) *Val {
 				// a basic value stored in an interface: an opaque box
 				b := x.fresh("box", SRef)
 				x.assume(st, Neq(b, Null))
+				if v.T.Sort == SStr {
+					x.W.BG.Funs["unbox.Str"] = FunSig{Name: "unbox.Str", Args: []Sort{SRef}, Res: SStr}
+					x.assume(st, Eq(App("unbox.Str", SStr, b), v.T))
+				}
 				return &Val{T: b, Ty: to}
 			}
 			if _, fromIface := v.Ty.Underlying().(*types.Interface); !fromIface {
